@@ -40,6 +40,10 @@ CLAIMED = {
    text="For each of 16 operation kinds (document create, update, update adding / dropping an attachment, delete, sync-function rejection, conflict rejection, pushed branch, purge; user create / update / delete, role create / delete, session create / delete) on seeded prior states (document live with attachment and grants, tombstoned; conflicted in the thorough tier) the storage operations the request issues are indexed in issue order and ONE RUN IS MADE FOR EVERY (index, fault kind): generic error, CAS mismatch, timeout with the write applied, timeout with the write lost; the thorough tier adds every pair of indices and a node crash before / after every index; seeded random multi-fault runs come on top. After each run the API's answer is compared with a read-back of all documents (revisions, body, channels, grants, attachment data), principals (admin grants, effective access, password) and sessions through a second un-faulted node without revision cache: failure => state identical to the pre-state; success => the operation's effect is visible (incl. the grantees' effective access and attachment bytes); unknown outcome (timeout, crash) => complete old or complete new state; and every sequence reserved is carried or published unused (ledger from the storage seam).",
    note="The space is complete relative to the listed operation kinds and prior states; indices beyond a request's last storage operation are listed but not applicable (counted separately in the evidence). Orphan attachment data documents left by a failed write are not visible through any API and are not judged.",
    technique="systematic single/pair fault and crash-point enumeration at the storage seam inside the deterministic simulator; read-back differential oracle", design="4/C11"),
+ "C13": dict(level="exploration",
+   text="Seeded search over rounds of concurrent document writes / channel moves / deletes and admin and sync-function grant changes for a user and its roles (role deletion, the same channel from several sources, loss and re-grant between two pulls), each round followed at a quiescent point by a pull of a protocol-following client that resumes from the last position it received, with revocation messages enabled and paging limits 0-3, optional node restart (cold caches, reloaded principals), tiny channel caches, CAS-retry and feed faults. The client does not interpret flag combinations: for every row it re-fetches that document as the user (body => keep, error / removed => purge). After every completed pull the client's documents must equal the documents whose current revision the user can see at that moment (computed from the stored documents' channels and the user's effective channels), with the right revisions; a document named by a revoked row must not be fetchable, and no revocation may name a document the user can still see.",
+   note="Pulls are taken at quiescent points, as the statement speaks of completed pulls; the user's effective channels are taken from the authenticator (their correctness is C03's subject).",
+   technique="deterministic simulation with a protocol-following replica model as oracle", design="4/C13"),
 }
 
 NA = {
